@@ -223,12 +223,12 @@ impl Parser {
 
             match state {
                 StringState::Character => {
-                    if position + characters_to_read > bytes.len() {
-                        return Err(format_unexpected_eof(bytes.len()));
-                    }
+                    let end_position = position.checked_add(characters_to_read)
+                        .filter(|end_position| *end_position <= bytes.len())
+                        .ok_or_else(|| format_unexpected_eof(bytes.len()))?;
 
-                    characters = Vec::from(&bytes[position..position + characters_to_read]);
-                    position += characters_to_read;
+                    characters = Vec::from(&bytes[position..end_position]);
+                    position = end_position;
                     break;
                 } 
                 StringState::DigitOrSeperator => {
